@@ -841,7 +841,9 @@ def build_cases(tier="quick"):
 
 
 def grounds():
-    return [Ground(f"{PROP}/fresh-prank-per-frame", ground_fresh_prank, sources=("halmos.sevm:SEVM.call", "halmos.sevm:SEVM.create"))]
+    from contracts.common import ground_script
+
+    return [Ground(f"{PROP}/cheatcodes.name_of#independent-symbols", ground_script("label_with_nul.py", "two svm.createUint256 calls whose labels agree up to a NUL byte", "every svm.create* call returns a value independent of all previously created ones, whatever bytes its label holds"), sources=("halmos.cheatcodes:name_of",)), Ground(f"{PROP}/fresh-prank-per-frame", ground_fresh_prank, sources=("halmos.sevm:SEVM.call", "halmos.sevm:SEVM.create"))]
 
 
 ASSUMPTIONS = [
